@@ -196,6 +196,8 @@ def r2_3(cx):
                 kinds.add('len')
             elif alt.kind == 'binop' and alt.op == 'Sub' and is_call(alt.a, 'len') and alt.b.is_const_int(1):
                 kinds.add('len-1')
+            elif alt.kind == 'binop' and alt.op == 'Sub' and is_call(alt.a, 'len') and _bool_as_int(alt.b):
+                kinds |= {'len', 'len-1'}      # len - (flag as usize): one or the other
             else:
                 kinds.add('other:' + show(alt)[:60])
         ok = kinds <= {'find', 'remaining', 'len', 'len-1'} and kinds
@@ -208,6 +210,18 @@ def r2_3(cx):
             me = True
     cx.check(me, 'mandatory-end', co, None, 'chunk closes when the truncated window fills the remaining capacity (len == remaining)',
              fail_detail='no test for the mandatory end of chunk (input.len() == remaining)')
+
+
+def _bool_as_int(e):
+    """usize::from(b) / b as usize for a boolean b (a comparison, or the hold-back flag): 0 or 1"""
+    c = e.strip()
+    if c.kind == 'call' and 'From<bool>' in c.op and len(c.args) == 1:
+        return True
+    inner = e
+    while inner is not None and inner.kind in ('cast',):
+        inner = inner.a
+    inner = inner.strip() if inner is not None else None
+    return inner is not None and inner is not e and ((inner.kind == 'binop' and inner.op in ('Eq', 'Ne')) or is_param_field(inner, 'maybe_mid_stuff'))
 
 
 PAIRS = [
